@@ -34,7 +34,7 @@ TIE_FOR = {
     'C07': ['TieClasses', 'TieReducers', 'TieMath', 'TieFormulas', 'TieOrch', 'TieRules', 'TieRoute', 'TieToplevel', 'TieCtor', 'TieUtil', 'TieAcc', 'TieEntry', 'TieCacheBody', 'TieSynth', 'TieSynthAll', 'TieSymRev', 'TieNorm', 'TieStep', 'TieRebuild'],
     'C08': ['TieReducers', 'TieRules', 'TieNorm', 'TieStep', 'TieUtil', 'TieRebuild', 'TieEntry', 'TieToplevel', 'TieCtor', 'TieMath', 'TieFormulas', 'TieCacheBody', 'TieRoute'],
     'C09': ['TieCache', 'TieBound', 'TieCacheBody', 'TieStep', 'TieToplevel', 'TieRoute', 'TieEntry', 'TieRebuild', 'TieAcc', 'TieUtil'], 'C10': ['TieWrites', 'TieUtil', 'TieRebuild', 'TieToplevel', 'TieStep', 'TieRoute', 'TieAcc', 'TieCtor', 'TieCacheBody'], 'C11': ['TieReducers', 'TieBound', 'TieRules', 'TieStep', 'TieUtil', 'TieRebuild', 'TieToplevel', 'TieCtor', 'TieMath', 'TieFormulas', 'TieCacheBody', 'TieRoute', 'TieNorm'],
-    'C12': ['TieClasses', 'TieObj', 'TieCtor', 'TieToplevel'], 'C13': ['TiePublic', 'TieObj', 'TieCtor', 'TieToplevel'], 'C14': ['TieSets', 'TieRoute', 'TieCtor', 'TieClasses', 'TieToplevel', 'TieCacheBody', 'TieOrch', 'TieEntry'], 'C15': ['TieOperators', 'TieCtor', 'TieToplevel'],
+    'C12': ['TieClasses', 'TieObj', 'TieCtor', 'TieToplevel'], 'C13': ['TiePublic', 'TieObj', 'TieCtor', 'TieToplevel'], 'C14': ['TieSets', 'TieRoute', 'TieCtor', 'TieClasses', 'TieToplevel', 'TieCacheBody', 'TieOrch', 'TieEntry'], 'C15': ['TieOperators', 'TieCtor', 'TieToplevel', 'TieObj'],
     'C16': ['TieClasses', 'TieCtor', 'TieRebuild', 'TieToplevel'], 'C17': ['TieClasses', 'TieMath', 'TieCtor', 'TieToplevel', 'TieRoute', 'TieOrch', 'TieCacheBody', 'TieFormulas', 'TieRules', 'TieSynth', 'TieSynthAll', 'TieSymRev', 'TieNorm', 'TieStep', 'TieEntry', 'TieAcc', 'TieUtil', 'TieRebuild', 'TieReducers'], 'C18': ['TieSets', 'TieRoute', 'TieCacheBody', 'TieEntry', 'TieAcc', 'TieToplevel', 'TieOrch', 'TieSymRev', 'TieUtil', 'TieRules', 'TieMath', 'TieFormulas', 'TieSynth', 'TieSynthAll', 'TieNorm', 'TieStep', 'TieObj'],
 }
 
